@@ -358,5 +358,14 @@ def draw_world_params(rng, tier='quick', **force):
         'n_unlabelled': rng.choice([0, 0, 2]),
         'gene_style': rng.choice(['plain', 'plain', 'odd']),
     }
+    # rare shapes past the 2**8 index-width boundary (genes, leaves): small worlds never cross it, and the code
+    # under test picks the narrowest integer type that fits in many places
+    u = rng.random()
+    if u < 0.03:
+        wp['n_genes'] = 300
+    elif u < 0.05:
+        wp['n_leaves'] = 300
+    elif u < 0.055:
+        wp['n_genes'], wp['n_leaves'] = 300, 270
     wp.update(force)
     return wp
